@@ -39,6 +39,25 @@ _T = ["rv.synth:Synth.chunks", "rv.project:Project.chunks", "rv.modules.module:M
       "rv.readers.module:ModuleReader.process_*", "rv.controller:Controller.__set__", "rv.option:Option.__set__"]
 
 
+def _pristine_defaults():
+    """Class-level default lists of every array payload, copied when the contracts are imported
+    (before any code under test has run in this process)."""
+    out = {}
+    for c in K.module_classes():
+        try:
+            inst = c()
+        except Exception:  # noqa
+            continue
+        for attr, arr in rw._array_attrs(inst):
+            d = getattr(type(arr), "default", None)
+            if isinstance(d, list):
+                out[(c.__name__, attr)] = list(d)
+    return out
+
+
+_PRISTINE = _pristine_defaults()
+
+
 def _class_cases(tier):
     out = []
     for c in K.module_classes():
@@ -98,10 +117,12 @@ def edit_after_load(H, case):
     rw.check_controllers(H, q, r, "edited.ctl")
     if mode == "edit_payload_in_place":
         rw.check_payload(H, q, r, "edited.payload")
-        fresh = type(q)()
-        for attr, arr in rw._array_attrs(fresh):
-            if not callable(getattr(type(arr), "default", None)) and isinstance(getattr(type(arr), "default", None), list):
-                H.check(f"class_default_untouched[{attr}]", list(type(arr).default) == list(arr.values))
+        for attr, arr in rw._array_attrs(q):
+            want = _PRISTINE.get((cname, attr))
+            if want is not None:
+                # an edit of a loaded object must not write through to the class-level default
+                H.check(f"class_default_untouched[{attr}]", H.eq(list(type(arr).default), want))
+                type(arr).default[:] = want  # keep later cases of this process independent
         rw.check_options(H, m1, r, "untouched.opt")
     elif mode == "edit_all":
         rw.check_module_common(H, q, r, "edited", in_project=False)
